@@ -11,8 +11,9 @@ TB = ("Trusted base: TLC 1.8 (tla2tools + CommunityModules), the TLA+ text under
       "specification deliberately does not mention - the environment of a call (library debug logging, warnings as "
       "errors, a 6-digit decimal context, a daylight-saving time zone, python -O), the kind of argument and file "
       "object (re-used bytearray, non-dict mappings, str subclasses; pipes, gzip files, files behind a header, "
-      "yielding Python-level files), object lifetime, and four threads working on separate objects at once - every "
-      "such history is judged by the same clauses. ")
+      "yielding Python-level files; a configuration derived by copy-and-edit from one already in use; a dictionary "
+      "re-used as a template), object lifetime, four threads working on separate objects at once, two histories in "
+      "strict lock-step (drv.Baton), and 120 frames of stack - every such history is judged by the same clauses. ")
 
 # pid -> (technique, level text, level note, design ref)
 CLAIMS = {
